@@ -218,8 +218,10 @@ class Scratch:
 
     # ------------------------------------------------------------------------------------------------------------
     def cargo_kani(self, harnesses, jobs=8, harness_timeout=None, extra=(), overall_timeout=None, export=None):
-        cmd = ['cargo', 'kani', '--no-default-features', '--lib', '--exact', '-Z', 'stubbing', '-Z', 'function-contracts',
+        cmd = ['cargo', 'kani', '--no-default-features', '--lib', '-Z', 'stubbing', '-Z', 'function-contracts',
                '-Z', 'unstable-options']
+        if harnesses:
+            cmd.append('--exact')
         for h in harnesses:
             cmd += ['--harness', h]
         if jobs and jobs > 1:
